@@ -90,7 +90,7 @@ func TestC08Growth(t *testing.T) {
 	}
 	sizes := []int{20, 60}
 	if evid.R.Thorough() {
-		sizes = []int{25, 100, 400, 1000}
+		sizes = []int{25, 100, 400}
 	}
 	names := make([]string, 0, len(families))
 	for k := range families {
